@@ -201,6 +201,17 @@ func judgeC17(c c11Case) (string, string) {
 		}
 		return "writetar-failed", err.Error()
 	}
+	// the same view behind readers that hand out a file in small pieces (a pipe, a network or decompressing file
+	// system): a short read is not the end of a file, the archive is the same byte for byte
+	for _, n := range []int{4096, 1} {
+		var b2 bytes.Buffer
+		if err := fsutil.WriteTar(context.Background(), shortReadFS{view, n}, &b2); err != nil {
+			return "short-reads:writetar-failed", fmt.Sprintf("readers deliver at most %d bytes per call: %v", n, err)
+		}
+		if !bytes.Equal(b2.Bytes(), buf.Bytes()) {
+			return "short-reads:archive-differs", fmt.Sprintf("readers deliver at most %d bytes per call: the archive differs from the one written from full reads (%d vs %d bytes)", n, b2.Len(), buf.Len())
+		}
+	}
 	ms, err := readTar(buf.Bytes())
 	if err != nil {
 		return "archive-malformed", err.Error()
@@ -532,4 +543,30 @@ func rerootLinks(in []*types.Stat) []*types.Stat {
 		}
 	}
 	return out
+}
+
+// shortReadFS: the view's files are read through readers that return at most n bytes per call.
+type shortReadFS struct {
+	fsutil.FS
+	n int
+}
+
+func (s shortReadFS) Open(p string) (io.ReadCloser, error) {
+	rc, err := s.FS.Open(p)
+	if err != nil {
+		return nil, err
+	}
+	return &shortReader{rc, s.n}, nil
+}
+
+type shortReader struct {
+	io.ReadCloser
+	n int
+}
+
+func (r *shortReader) Read(b []byte) (int, error) {
+	if len(b) > r.n {
+		b = b[:r.n]
+	}
+	return r.ReadCloser.Read(b)
 }
